@@ -88,6 +88,16 @@ def sweep(ctx, n):
                 obs = np.concatenate([far_points(nps, 3, lo=2.5, hi=6), m0.vertices.mean(axis=0)[None]])
                 ref = get(m0, obs)
                 err = max(rel(get(m1, obs), ref), rel(get(m2, obs), ref), rel(magpy.getH(m0.to_TriangleCollection(), obs), magpy.getH(m0, obs)))
+                # a mesh given with some inward faces, evaluated once, repaired with reorient_faces(), evaluated again
+                fl = m0.faces.copy()
+                flip = nps.random(len(fl)) < 0.5
+                flip[0] = True
+                fl[flip] = fl[flip][:, [0, 2, 1]]
+                m3 = magpy.magnet.TriangularMesh(vertices=m0.vertices, faces=fl, polarization=pol, reorient_faces="skip", check_selfintersecting="skip")
+                get(m3, obs)
+                _ = m3.mesh
+                m3.reorient_faces()
+                err = max(err, rel(get(m3, obs), ref), rel(magpy.getH(m3.to_TriangleCollection(), obs), magpy.getH(m0, obs)))
             elif kind == "polyline-circle":
                 nseg = 4000
                 ph = np.linspace(0, 2 * np.pi, nseg + 1)
